@@ -3,7 +3,7 @@
             (op backend shape ((vals masks) ...))         representations on masked inputs
    reply    (1 payload) | (0 error-code);  floats are binary64 bit patterns.  Definitions only. *)
 From Coq Require Import List Arith Bool ZArith PrimFloat.
-Require Import Tensor Num Result Tree C09_Masked C09_Ops.
+Require Import Tensor Num Result Tree C09_Masked C09_Ops C09_Facts Gen_C09.
 Import ListNotations.
 
 (* ---- external numerics of the executed instance -------------------------------------------------------------- *)
@@ -51,7 +51,7 @@ Definition t_marr (shape : list nat) (t : tree) : marr F_ops :=
 
 Definition body_op (op : Z) (np tf : bool) (b : body F_ops) (p : tree) : tree :=
   (* (extraction is strict: decode the parameters inside the branch that owns them) *)
-  if (op =? 1)%Z then of_result of_body ((if np then np_get_points F_ops else t_get_points F_ops) (t_nats (t_nth 0 p)) b)
+  if (op =? 1)%Z then of_result of_body ((if np then np_get_points F_ops else if tf then tf_get_points F_ops Gen_C09.tf_gather_int_cast else t_get_points F_ops) (t_nats (t_nth 0 p)) b)
   else if (op =? 2)%Z then of_result of_body ((if np then np_select_frames F_ops else if tf then tf_select_frames F_ops else t_select_frames F_ops) (t_nats (t_nth 0 p)) b)
   else if (op =? 3)%Z then
     Nd [L 1; of_body (np_normalize F_ops FE (t_nat (t_nth 0 p)) (t_nat (t_nth 1 p)) (t_f (t_nth 2 p)) b)]
@@ -63,7 +63,7 @@ Definition body_op (op : Z) (np tf : bool) (b : body F_ops) (p : tree) : tree :=
   else if (op =? 6)%Z then Nd [L 1; of_body (np_flip F_ops (t_nat (t_nth 0 p)) b)]
   else if (op =? 7)%Z then
     Nd [L 1; of_body ((if np then np_matmul F_ops else t_matmul F_ops) (t_nat (t_nth 0 p)) (t_fs (t_nth 1 p)) b)]
-  else if (op =? 8)%Z then of_result of_body (np_interpolate F_ops FE (t_nat (t_nth 0 p)) (t_nat (t_nth 1 p)) b)
+  else if (op =? 8)%Z then of_result of_body (np_interpolate F_ops FE Gen_C09.interp_first_default_len (t_nat (t_nth 0 p)) (t_nat (t_nth 1 p)) b)
   else if (op =? 9)%Z then of_result of_body (np_bbox F_ops FE (t_nats (t_nth 0 p)) b)
   else if (op =? 10)%Z then of_result (fun r => Nd [of_body (fst r); of_fs (snd r)]) (np_focus F_ops FE b)
   else if (op =? 11)%Z then
